@@ -26,16 +26,14 @@ Section Blocks.
   Variable cfg : config.
   Variable L : ctx -> path -> stmt -> res (list expr).
 
-  (* [reached b] : some statement of b that the traversal visits satisfies Q *)
-  Fixpoint reached (Q : stmt -> bool) (b : list stmt) : bool :=
-    match b with [] => false | x :: r => Q x || (if is_interrupt x then false else reached Q r) end.
+  Definition reached (Q : stmt -> bool) (b : list stmt) : bool := ex_live Q b.
 
   Lemma block_failed : forall (Q : stmt -> bool) b c p br i,
     (forall s, List.In s b -> Q s = true -> forall c p, failed (L c p s)) ->
     reached Q b = true -> failed (lower_block cfg L c p br i b).
   Proof.
     induction b as [|s rest IH]; intros c p br i HQ Hr; [discriminate|].
-    cbn [reached] in Hr. cbn [lower_block].
+    unfold reached in *. cbn [ex_live] in Hr. cbn [lower_block].
     destruct (Q s) eqn:Es.
     - apply rbind_failed. apply HQ; [left; reflexivity|exact Es].
     - cbn [orb] in Hr. destruct (is_interrupt s) eqn:Ei; [discriminate|].
@@ -50,49 +48,43 @@ End Blocks.
 (* a statement reached by the traversal (dead code after break/continue/return is not converted at all) *)
 Definition reaches_unsupported (s : stmt) : bool := visits is_unsupported s.
 
-Lemma visits_block_reached f b :
-  (fix blk (b : list stmt) : bool :=
-     match b with [] => false | x :: r => visits f x || (if is_interrupt x then false else blk r) end) b
-  = reached (visits f) b.
-Proof. induction b as [|x r IH]; [reflexivity|]. cbn [reached]. rewrite <- IH. reflexivity. Qed.
-
 Theorem unsupported_stmt_rejected : forall cfg s c p,
   reaches_unsupported s = true -> failed (lower_stmt cfg c p s).
 Proof.
   intros cfg. unfold reaches_unsupported.
   induction s using stmt_ind'; intros c p Hv; cbn [visits is_unsupported orb] in Hv; try discriminate.
-  - (* If *) rewrite !visits_block_reached in Hv. cbn [lower_stmt].
-    destruct (reached (visits is_unsupported) b) eqn:Eb.
+  - (* If *) cbn [lower_stmt].
+    destruct (ex_live (visits is_unsupported) b) eqn:Eb.
     + apply rbind_failed. apply (block_failed cfg _ (visits is_unsupported)); [|exact Eb].
       intros s0 Hin Hs c0 p0. rewrite Forall_forall in H. apply H; assumption.
     + cbn [orb] in Hv.
       destruct (lower_block cfg _ c p 0 0 b) as [b'|e]; [|exists e; reflexivity]. cbn [rbind].
       apply rbind_failed. apply (block_failed cfg _ (visits is_unsupported)); [|exact Hv].
       intros s0 Hin Hs c0 p0. rewrite Forall_forall in H0. apply H0; assumption.
-  - (* While *) rewrite !visits_block_reached in Hv. cbn [lower_stmt].
-    destruct (reached (visits is_unsupported) b) eqn:Eb.
+  - (* While *) cbn [lower_stmt].
+    destruct (ex_live (visits is_unsupported) b) eqn:Eb.
     + apply rbind_failed. apply (block_failed cfg _ (visits is_unsupported)); [|exact Eb].
       intros s0 Hin Hs c0 p0. rewrite Forall_forall in H. apply H; assumption.
     + cbn [orb] in Hv.
       destruct (lower_block cfg _ _ p 0 0 b) as [b'|e]; [|exists e; reflexivity]. cbn [rbind].
       apply rbind_failed. apply (block_failed cfg _ (visits is_unsupported)); [|exact Hv].
       intros s0 Hin Hs c0 p0. rewrite Forall_forall in H0. apply H0; assumption.
-  - (* For *) rewrite !visits_block_reached in Hv. cbn [lower_stmt].
-    destruct (reached (visits is_unsupported) b) eqn:Eb.
+  - (* For *) cbn [lower_stmt].
+    destruct (ex_live (visits is_unsupported) b) eqn:Eb.
     + apply rbind_failed. apply (block_failed cfg _ (visits is_unsupported)); [|exact Eb].
       intros s0 Hin Hs c0 p0. rewrite Forall_forall in H. apply H; assumption.
     + cbn [orb] in Hv.
       destruct (lower_block cfg _ _ p 0 0 b) as [b'|e]; [|exists e; reflexivity]. cbn [rbind].
       apply rbind_failed. apply (block_failed cfg _ (visits is_unsupported)); [|exact Hv].
       intros s0 Hin Hs c0 p0. rewrite Forall_forall in H0. apply H0; assumption.
-  - (* FunctionDef *) rewrite visits_block_reached in Hv. cbn [lower_stmt].
+  - (* FunctionDef *) cbn [lower_stmt].
     destruct (find_inner (c_nsp c) n ln) as [fn|]; [|exists ERuntime; reflexivity].
     destruct (n_kind fn); try (exists EAssert; reflexivity).
     destruct (rmap _ (a_defaults a)) as [ds|e]; [|exists e; reflexivity]. cbn [rbind].
     destruct (rmap _ (a_kw_defaults a)) as [kds|e]; [|exists e; reflexivity]. cbn [rbind].
     apply rbind_failed. apply (block_failed cfg _ (visits is_unsupported)); [|exact Hv].
     intros s0 Hin Hs c0 p0. rewrite Forall_forall in H. apply H; assumption.
-  - (* ClassDef *) rewrite visits_block_reached in Hv. cbn [lower_stmt].
+  - (* ClassDef *) cbn [lower_stmt].
     destruct (find_inner (c_nsp c) n ln) as [cn|]; [|exists ERuntime; reflexivity].
     destruct (n_kind cn); try (exists EAssert; reflexivity).
     apply rbind_failed. apply (block_failed cfg _ (visits is_unsupported)); [|exact Hv].
@@ -100,18 +92,39 @@ Proof.
   - (* Unsupported itself *) exists ERuntime. reflexivity.
 Qed.
 
-(* whole modules: every top-level statement is visited *)
+(* whole modules: every top-level statement is visited (a break/continue/return at module level is itself refused) *)
+Lemma generate_nsp_global lt root g : generate_nsp lt root = inl g -> n_kind g = NGlobal.
+Proof.
+  unfold generate_nsp. destruct root as [k name ln syms fr nl ps ms ch].
+  match goal with |- context [rbind ?x _] => destruct x as [[[inner marks] nx]|e] end; cbn [rbind]; [|discriminate].
+  intros H. injection H as <-. reflexivity.
+Qed.
+
+Lemma interrupt_fails_at_top cfg g p s : n_kind g = NGlobal -> is_interrupt s = true ->
+  failed (lower_stmt cfg (mkCtx g [] false) p s).
+Proof.
+  intros Hg Hi. destruct s; try discriminate; cbn [lower_stmt c_loops c_nsp]; try (exists ESyntax; reflexivity).
+  rewrite Hg. exists ESyntax. reflexivity.
+Qed.
+
 Theorem unsupported_module_rejected : forall cfg root body,
   existsb reaches_unsupported body = true -> failed (lower_module cfg root body).
 Proof.
   intros cfg root body H. unfold lower_module.
-  destruct (generate_nsp (cfg_host_lt_312 cfg) root) as [g|e]; [|exists e; reflexivity]. cbn [rbind].
-  apply rbind_failed.
-  generalize 0 as i. induction body as [|s r IH]; intros i; [discriminate|].
-  cbn [existsb] in H. destruct (reaches_unsupported s) eqn:Es.
-  - apply rbind_failed. apply unsupported_stmt_rejected. exact Es.
-  - cbn [orb] in H. destruct (lower_stmt cfg _ [i] s) as [a|e]; [|exists e; reflexivity]. cbn [rbind].
-    apply rbind_failed. apply IH. exact H.
+  destruct (generate_nsp (cfg_host_lt_312 cfg) root) as [g|e] eqn:Eg; [|exists e; reflexivity]. cbn [rbind].
+  apply rbind_failed. assert (Hg := generate_nsp_global _ _ _ Eg).
+  assert (G : forall i, failed (lower_block cfg (fun c0 p0 s0 => lower_stmt cfg c0 p0 s0) (mkCtx g [] false) [] 0 i body)).
+  { induction body as [|s r IH]; intros i; [discriminate|].
+    cbn [existsb] in H. cbn [lower_block].
+    destruct (reaches_unsupported s) eqn:Es.
+    - apply rbind_failed. apply unsupported_stmt_rejected. exact Es.
+    - cbn [orb] in H.
+      destruct (is_interrupt s) eqn:Ei.
+      + apply rbind_failed. apply interrupt_fails_at_top; assumption.
+      + destruct (lower_stmt cfg _ (i :: 0 :: []) s) as [a|e]; [|exists e; reflexivity]. cbn [rbind].
+        destruct r as [|s2 r2]; [discriminate|].
+        destruct (IH H (S i)) as [e He]. rewrite He. exists e. reflexivity. }
+  apply G.
 Qed.
 
 (* expressions: generators and coroutines are refused by the expression rewriter wherever it arrives *)
